@@ -160,7 +160,7 @@ UNITS["actor"] = {
         "every await is on a stand-in that is immediately ready, so `async`/`.await` are de-sugared away by the slicer: task cancellation between await points is NOT covered; proc-macro generated actor plumbing (puppet) is not verified",
         "distinct timestamps: an incoming put does not carry exactly the stamp of a tombstone already held for that id",
     ],
-    "env": {"VCOLL_CAP": "3"},
+    "env": {"VCOLL_CAP": "3", "VCOLL_VCAP": "3"},
     "timeout_quick": 1200,
 }
 
@@ -169,7 +169,7 @@ UNITS["group"] = {
     "crate": "harness/group",
     "harness_mod": "group::verif_contracts",
     "kani_flags": [],
-    "env": {"VCOLL_CAP": "3"},
+    "env": {"VCOLL_CAP": "3", "VCOLL_VCAP": "3"},
     "sources": ["datacake-eventual-consistency/src/keyspace/group.rs", "datacake-crdt/src/timestamp.rs"],
     "slice": [{
         "mode": "items", "src": "datacake-eventual-consistency/src/keyspace/group.rs", "out": "group.rs",
@@ -187,13 +187,70 @@ UNITS["group"] = {
                   "`impl<S> KeyspaceGroup<S>` cut verbatim and pasted after harness/group/src/prelude.rs; the `async` keyword and every `.await` token are deleted",
     "functions": ["KeyspaceGroup::load_states_from_storage", "KeyspaceGroup::load_states", "KeyspaceGroup::get_or_create_keyspace", "KeyspaceGroup::add_state"],
     "assumptions": [
-        "the ORSWOT set is linked by contract (contracts/specset.rs); storage is a ghost row store (<= 2 keyspaces x <= 3 rows, one row per id, distinct stamps)",
+        "the ORSWOT set is linked by contract (contracts/specset.rs); storage is a ghost row store (<= 2 keyspaces x <= 2 rows, one row per id, distinct stamps)",
         "spawn_keyspace is a stand-in that records the state it is handed; ActorMailbox is an identity; Clock returns any stamp",
         "C18: parking_lot RwLock sections are atomic and no guard is held across an await (checked by reading: guards live in inner blocks); other tasks run only at "
         "the former await points (clock read, actor spawn) and only ever add a binding for an unbound name (rely == the guarantee proved)",
         "async/await de-sugared: cancellation between await points not covered",
     ],
     "timeout_quick": 1200,
+}
+
+UNITS["membership"] = {
+    "kind": "kani",
+    "crate": "harness/membership",
+    "harness_mod": "watch::verif_contracts",
+    "kani_flags": [],
+    "env": {"VCOLL_CAP": "3", "VCOLL_VCAP": "3"},
+    "sources": ["datacake-node/src/lib.rs", "datacake-node/src/node.rs"],
+    "slice": [
+        {"mode": "items", "src": "datacake-node/src/node.rs", "out": "node_types.rs",
+         "prelude": "/verif/harness/membership/src/prelude_types.rs",
+         "items": [{"kind": "type", "name": "NodeMembership"}, {"kind": "struct", "name": "ClusterMember"}]},
+        {"mode": "items", "src": "datacake-node/src/lib.rs", "out": "watch.rs",
+         "prelude": "/verif/harness/membership/src/prelude_watch.rs",
+         "deasync": True,
+         "items": [{"kind": "struct", "name": "MembershipChange"}, {"kind": "fn", "name": "watch_membership_changes"}],
+         "append": ['#[cfg(kani)] #[path = "/verif/harness/membership/src/contracts.rs"] mod verif_contracts;']},
+    ],
+    "extraction": "items NodeMembership, ClusterMember (node.rs) and MembershipChange, watch_membership_changes (lib.rs) cut verbatim; `async`/`.await` deleted",
+    "functions": ["watch_membership_changes"],
+    "assumptions": [
+        "snapshot stream, latest-value delta channel, RpcNetwork, NodeSelectorHandle, statistics are recording stand-ins; tracing macros are no-ops",
+        "BTreeSet<(NodeId, SocketAddr)> keys are identified by (id, IPv4, port) packed in 56 bits (vcoll::VKey)",
+    ],
+    "timeout_quick": 1200,
+}
+
+UNITS["clock"] = {
+    "kind": "kani",
+    "crate": "harness/clock",
+    "harness_mod": "clock::verif_contracts",
+    "kani_flags": [],
+    "sources": ["datacake-node/src/clock.rs", "datacake-crdt/src/timestamp.rs"],
+    "slice": [{
+        "mode": "items", "src": "datacake-node/src/clock.rs", "out": "clock.rs",
+        "prelude": "/verif/harness/clock/src/prelude.rs",
+        "deasync": True,
+        "items": [
+            {"kind": "const", "name": "CLOCK_BACKPRESSURE_LIMIT"},
+            {"kind": "struct", "name": "Clock"},
+            {"kind": "impl_fns", "name": "Clock", "header": r"impl Clock\s*\{", "fns": ["register_ts", "get_time"]},
+            {"kind": "enum", "name": "Event"},
+            {"kind": "fn", "name": "run_clock"},
+        ],
+        "append": ['#[cfg(kani)] #[path = "/verif/harness/clock/src/contracts.rs"] mod verif_contracts;'],
+    }],
+    "extraction": "items CLOCK_BACKPRESSURE_LIMIT, Clock, Clock::{register_ts, get_time}, Event, run_clock cut verbatim from clock.rs; `async`/`.await` deleted; "
+                  "timestamp.rs via #[path] unedited (cfg(datacake_verif) wall-clock hook on)",
+    "functions": ["run_clock", "Clock::get_time", "Clock::register_ts"],
+    "assumptions": [
+        "flume delivers each event exactly once, in FIFO order, to the single receiver; tokio runs the actor task; oneshot delivers the value to its receiver",
+        "actor precondition: counters stay clear of exhaustion (< 60000), the clock starts within MAX_CLOCK_DRIFT of the wall clock, the wall clock may stall but does not run backwards between two events, and the clock is not within 10000 s of the end of the 32-bit range; if send() fails the real actor "
+        "panics through expect() -- outside C11, not verified",
+        "schedule quantifier reduced to event sequences by the single-owner actor; two steps from an arbitrary state are the induction step",
+    ],
+    "timeout_quick": 600,
 }
 
 import copy
@@ -289,7 +346,7 @@ _k("os_lacks", "orswot", "P", "OrSWotSet::check_self_then_insert_to",
 # ---- unit orswot_b (class B: the iterated collection is concrete and bounded)
 _k("os_diff_list", "orswot_b", "B", "OrSWotSet::diff",
    "S arbitrary/unbounded, O with <= 1 live + <= 1 tombstone: changes == live entries of O that S lacks (peer's stamps, once each); "
-   "removals likewise from O's tombstones; nothing else listed", bound="|O.entries| <= 1, |O.dead| <= 1")
+   "removals likewise from O's tombstones; nothing else listed", bound="|O.entries| <= 1, |O.dead| <= 1", tier="thorough")
 _k("os_diff_list_3", "orswot_b", "B", "OrSWotSet::diff", "same contract at the larger bound", bound="|O.entries| <= 2, |O.dead| <= 1", tier="thorough")
 _k("os_purge_all", "orswot_b", "B", "OrSWotSet::purge_old_deletes",
    "<= 3 tombstones, entries/versions arbitrary: dropped+returned iff before the cut-off of its origin; entries, newest stamps, cut-offs untouched",
@@ -302,7 +359,7 @@ _RB = "4 URIs, 3 services, <= 2 keys per service; arbitrary start state satisfyi
 _k("reg_lookup", "rpc_registry", "B", "ServerState::get_handler",
    "for every state satisfying I: a URI is dispatched iff its key is owned by a registered service, to the handler registered for it", bound=_RB)
 _k("reg_add_step", "rpc_registry", "B", "ServerState::add_handlers",
-   "from any state satisfying I: the added handlers (<= 2) are served under the service, everything else unchanged, I preserved", bound=_RB)
+   "from any state satisfying I: the added handlers (<= 2) are served under the service, everything else unchanged, I preserved", bound=_RB, tier="thorough")
 _k("reg_remove_step", "rpc_registry", "B", "ServerState::remove_handlers",
    "from any state satisfying I: exactly the removed service's handlers disappear (none left behind), every other service keeps every handler, I preserved", bound=_RB)
 
@@ -324,19 +381,32 @@ _k("ac_on_set", "actor", "P", "KeyspaceActor::on_set",
 _k("ac_on_del", "actor", "P", "KeyspaceActor::on_del", "same contract for deletes")
 _k("ac_on_multi_set", "actor", "B", "KeyspaceActor::on_multi_set",
    "batch <= 2 distinct ids, arbitrary reported-success subset: agreement at every id and a bystander; only documents reported as written become visible",
-   bound="batch <= 2, distinct ids")
-_k("ac_on_multi_del", "actor", "B", "KeyspaceActor::on_multi_del", "same contract for bulk deletes", bound="batch <= 2, distinct ids")
+   bound="batch <= 2, distinct ids", tier="thorough")
+_k("ac_on_multi_del", "actor", "B", "KeyspaceActor::on_multi_del", "same contract for bulk deletes", bound="batch <= 2, distinct ids", tier="thorough")
 _k("ac_on_purge", "actor", "B", "KeyspaceActor::on_purge_tombstones",
    "<= 2 tombstones: a tombstone leaves the set iff it left storage (failed removals re-added); only tombstones older than the cut-off; live documents untouched",
-   bound="|dead| <= 2")
+   bound="|dead| <= 2", tier="thorough")
 
 # ---- unit group
 _k("gr_load_all", "group", "B", "KeyspaceGroup::load_states_from_storage / load_states",
-   "for every storage content (<= 2 keyspaces x <= 3 rows, any order, any tombstone flags) the state handed to each keyspace actor holds exactly the rows: "
+   "for every storage content (<= 2 keyspaces x <= 2 rows, any order, any tombstone flags) the state handed to each keyspace actor holds exactly the rows: "
    "live ids and tombstones with their stamps, nothing else; name bound to that actor; a failed read starts nothing",
-   bound="2 keyspaces x 3 rows")
+   bound="2 keyspaces x 2 rows")
 _k("gr_binding_preserved", "group", "P", "KeyspaceGroup::get_or_create_keyspace / add_state",
    "arbitrary group map, environment steps at both former await points: result == map'[name]; a binding once set (before the call or by another task in the window) is never replaced")
+
+# ---- unit membership
+_k("mb_delta_step", "membership", "B", "watch_membership_changes",
+   "two consecutive snapshots over ids {self,1,2} (first arbitrary => inductive step), 2 addresses, 2 DCs: joined/left exact (left as members of the PREVIOUS "
+   "snapshot with the address they had); consumer fold == others(cur); departed addresses disconnected; set_nodes gets exactly cur's DC layout",
+   bound="2 snapshots x 3 ids x 2 addresses x 2 DCs")
+
+# ---- unit clock
+_k("ck_two_events", "clock", "P", "run_clock",
+   "arbitrary clock state, any two events, arbitrary wall reading per event: Get replies are strictly increasing in channel order, carry the node id, and a Get after an "
+   "accepted Register(remote) is > remote")
+_k("ck_get_time", "clock", "P", "Clock::get_time", "sends exactly one Get event and returns the reply delivered on its own oneshot")
+_k("ck_register", "clock", "P", "Clock::register_ts", "own stamps ignored; otherwise exactly one Register event carrying the stamp")
 
 # ---- Verus lemma layer (each file = shared exec kernels proved equal to spec kernels + lemmas)
 _v("lemmas_lww", "lemmas/lww.rs", "kernels k_insert/k_delete/k_cut/k_before/k_will_apply/k_lacks/k_max_stamp/k_safe; lemma layer",
@@ -349,6 +419,10 @@ _v("lemmas_repair", "lemmas/repair.rs", "lemma layer over sk_lacks / sk_insert /
 _v("lemmas_purge", "lemmas/purge.rs", "lemma layer over sk_before / sk_will_apply / sk_insert / sk_delete",
    "purged tombstone (d < L): every op from that origin with t <= d is refused now and under any later (larger) cut-off; purging is invisible: "
    "decision and live part identical with and without the tombstone for ANY later op; simulation step preserved under growing cut-off", 13)
+
+_v("lemmas_membership", "lemmas/membership.rs", "lemma layer over membership maps (id -> address)",
+   "apply(a, delta(a,b)) == b for ANY a, b; a consumer applying every event holds the last snapshot (induction over the history); holds for any subsequence "
+   "of snapshots provided deltas are computed per subscriber", 14)
 
 # --------------------------------------------------------------------------- properties
 PROPERTIES = {
@@ -387,10 +461,22 @@ PROPERTIES = {
             "crash points: the rebuilt state is a function of storage only (gr_load_all), so the in-memory state at the crash is irrelevant; "
             "'acknowledged => in storage' is the Ok branch of ac_on_set/ac_on_del (storage written before the reply)"],
     },
+    "C16": {
+        "obligations": ["mb_delta_step", "lemmas_membership"],
+        "level": "other",
+        "explanation": "bounded contract checking (class B): the delta function of watch_membership_changes for one transition from an arbitrary previous snapshot "
+                       "(3 ids x 2 addresses x 2 DCs) plus the Verus fold lemma (unbounded) where registered",
+        "assumptions": [],
+    },
     "C18": {
         "obligations": ["gr_binding_preserved"],
         "level": "proof", "explanation": "", "assumptions": [
             "schedule quantifier discharged by a rely/guarantee reduction: one sequential contract per write-locked section, environment steps at await points"],
+    },
+    "C11": {
+        "obligations": ["ck_two_events", "ck_get_time", "ck_register", "ts_send_contract", "ts_recv_contract", "ts_two_step_send_send", "ts_two_step_recv_send"],
+        "level": "proof", "explanation": "", "assumptions": [
+            "schedules are reduced to sequences by the single-owner actor (channel FIFO / exactly-once delivery assumed, Kani has no threads)"],
     },
     "C12": {
         "obligations": ["view_using_1", "view_using_8", "view_using_24", "view_roundtrip_8", "view_roundtrip_24"],
